@@ -1,5 +1,6 @@
 // Package simatomic replaces go.uber.org/atomic in instrumented code: the
-// same operations on the real atomics, with a scheduling point before each.
+// same operations on the real atomics, with a scheduling point before each and another one after each
+// modifying operation (a flag published before the data it guards is only observable there).
 package simatomic
 
 import (
@@ -16,46 +17,91 @@ func init() { simrt.RegisterSites(map[int]string{site: "atomic"}) }
 
 type Int64 struct{ v atomic.Int64 }
 
-func NewInt64(x int64) *Int64                   { r := &Int64{}; r.v.Store(x); return r }
-func (a *Int64) Load() int64                    { simrt.Yield(site); return a.v.Load() }
-func (a *Int64) Store(x int64)                  { simrt.Yield(site); a.v.Store(x) }
-func (a *Int64) Add(d int64) int64              { simrt.Yield(site); return a.v.Add(d) }
-func (a *Int64) Sub(d int64) int64              { simrt.Yield(site); return a.v.Sub(d) }
-func (a *Int64) Inc() int64                     { simrt.Yield(site); return a.v.Inc() }
-func (a *Int64) Dec() int64                     { simrt.Yield(site); return a.v.Dec() }
-func (a *Int64) Swap(x int64) int64             { simrt.Yield(site); return a.v.Swap(x) }
-func (a *Int64) CAS(o, n int64) bool            { simrt.Yield(site); return a.v.CompareAndSwap(o, n) }
-func (a *Int64) CompareAndSwap(o, n int64) bool { simrt.Yield(site); return a.v.CompareAndSwap(o, n) }
-func (a *Int64) String() string                 { return a.v.String() }
-func (a *Int64) MarshalJSON() ([]byte, error)   { return a.v.MarshalJSON() }
+func NewInt64(x int64) *Int64       { r := &Int64{}; r.v.Store(x); return r }
+func (a *Int64) Load() int64        { simrt.Yield(site); return a.v.Load() }
+func (a *Int64) Store(x int64)      { simrt.Yield(site); a.v.Store(x); simrt.Yield(site) }
+func (a *Int64) Add(d int64) int64  { simrt.Yield(site); r := a.v.Add(d); simrt.Yield(site); return r }
+func (a *Int64) Sub(d int64) int64  { simrt.Yield(site); r := a.v.Sub(d); simrt.Yield(site); return r }
+func (a *Int64) Inc() int64         { simrt.Yield(site); r := a.v.Inc(); simrt.Yield(site); return r }
+func (a *Int64) Dec() int64         { simrt.Yield(site); r := a.v.Dec(); simrt.Yield(site); return r }
+func (a *Int64) Swap(x int64) int64 { simrt.Yield(site); r := a.v.Swap(x); simrt.Yield(site); return r }
+func (a *Int64) CAS(o, n int64) bool {
+	simrt.Yield(site)
+	r := a.v.CompareAndSwap(o, n)
+	simrt.Yield(site)
+	return r
+}
+func (a *Int64) CompareAndSwap(o, n int64) bool {
+	simrt.Yield(site)
+	r := a.v.CompareAndSwap(o, n)
+	simrt.Yield(site)
+	return r
+}
+func (a *Int64) String() string               { return a.v.String() }
+func (a *Int64) MarshalJSON() ([]byte, error) { return a.v.MarshalJSON() }
 
 type Uint64 struct{ v atomic.Uint64 }
 
-func NewUint64(x uint64) *Uint64                  { r := &Uint64{}; r.v.Store(x); return r }
-func (a *Uint64) Load() uint64                    { simrt.Yield(site); return a.v.Load() }
-func (a *Uint64) Store(x uint64)                  { simrt.Yield(site); a.v.Store(x) }
-func (a *Uint64) Add(d uint64) uint64             { simrt.Yield(site); return a.v.Add(d) }
-func (a *Uint64) Sub(d uint64) uint64             { simrt.Yield(site); return a.v.Sub(d) }
-func (a *Uint64) Inc() uint64                     { simrt.Yield(site); return a.v.Inc() }
-func (a *Uint64) Dec() uint64                     { simrt.Yield(site); return a.v.Dec() }
-func (a *Uint64) Swap(x uint64) uint64            { simrt.Yield(site); return a.v.Swap(x) }
-func (a *Uint64) CAS(o, n uint64) bool            { simrt.Yield(site); return a.v.CompareAndSwap(o, n) }
-func (a *Uint64) CompareAndSwap(o, n uint64) bool { simrt.Yield(site); return a.v.CompareAndSwap(o, n) }
-func (a *Uint64) String() string                  { return a.v.String() }
-func (a *Uint64) MarshalJSON() ([]byte, error)    { return a.v.MarshalJSON() }
+func NewUint64(x uint64) *Uint64 { r := &Uint64{}; r.v.Store(x); return r }
+func (a *Uint64) Load() uint64   { simrt.Yield(site); return a.v.Load() }
+func (a *Uint64) Store(x uint64) { simrt.Yield(site); a.v.Store(x); simrt.Yield(site) }
+func (a *Uint64) Add(d uint64) uint64 {
+	simrt.Yield(site)
+	r := a.v.Add(d)
+	simrt.Yield(site)
+	return r
+}
+func (a *Uint64) Sub(d uint64) uint64 {
+	simrt.Yield(site)
+	r := a.v.Sub(d)
+	simrt.Yield(site)
+	return r
+}
+func (a *Uint64) Inc() uint64 { simrt.Yield(site); r := a.v.Inc(); simrt.Yield(site); return r }
+func (a *Uint64) Dec() uint64 { simrt.Yield(site); r := a.v.Dec(); simrt.Yield(site); return r }
+func (a *Uint64) Swap(x uint64) uint64 {
+	simrt.Yield(site)
+	r := a.v.Swap(x)
+	simrt.Yield(site)
+	return r
+}
+func (a *Uint64) CAS(o, n uint64) bool {
+	simrt.Yield(site)
+	r := a.v.CompareAndSwap(o, n)
+	simrt.Yield(site)
+	return r
+}
+func (a *Uint64) CompareAndSwap(o, n uint64) bool {
+	simrt.Yield(site)
+	r := a.v.CompareAndSwap(o, n)
+	simrt.Yield(site)
+	return r
+}
+func (a *Uint64) String() string               { return a.v.String() }
+func (a *Uint64) MarshalJSON() ([]byte, error) { return a.v.MarshalJSON() }
 
 type Bool struct{ v atomic.Bool }
 
-func NewBool(x bool) *Bool                    { r := &Bool{}; r.v.Store(x); return r }
-func (a *Bool) Load() bool                    { simrt.Yield(site); return a.v.Load() }
-func (a *Bool) Store(x bool)                  { simrt.Yield(site); a.v.Store(x) }
-func (a *Bool) Swap(x bool) bool              { simrt.Yield(site); return a.v.Swap(x) }
-func (a *Bool) Toggle() bool                  { simrt.Yield(site); return a.v.Toggle() }
-func (a *Bool) CAS(o, n bool) bool            { simrt.Yield(site); return a.v.CompareAndSwap(o, n) }
-func (a *Bool) CompareAndSwap(o, n bool) bool { simrt.Yield(site); return a.v.CompareAndSwap(o, n) }
+func NewBool(x bool) *Bool       { r := &Bool{}; r.v.Store(x); return r }
+func (a *Bool) Load() bool       { simrt.Yield(site); return a.v.Load() }
+func (a *Bool) Store(x bool)     { simrt.Yield(site); a.v.Store(x); simrt.Yield(site) }
+func (a *Bool) Swap(x bool) bool { simrt.Yield(site); r := a.v.Swap(x); simrt.Yield(site); return r }
+func (a *Bool) Toggle() bool     { simrt.Yield(site); r := a.v.Toggle(); simrt.Yield(site); return r }
+func (a *Bool) CAS(o, n bool) bool {
+	simrt.Yield(site)
+	r := a.v.CompareAndSwap(o, n)
+	simrt.Yield(site)
+	return r
+}
+func (a *Bool) CompareAndSwap(o, n bool) bool {
+	simrt.Yield(site)
+	r := a.v.CompareAndSwap(o, n)
+	simrt.Yield(site)
+	return r
+}
 
 type Time struct{ v atomic.Time }
 
 func NewTime(x time.Time) *Time   { r := &Time{}; r.v.Store(x); return r }
 func (a *Time) Load() time.Time   { simrt.Yield(site); return a.v.Load() }
-func (a *Time) Store(x time.Time) { simrt.Yield(site); a.v.Store(x) }
+func (a *Time) Store(x time.Time) { simrt.Yield(site); a.v.Store(x); simrt.Yield(site) }
